@@ -201,6 +201,11 @@ def check_plateau(run):
         # intervals (upper bound first) are legitimate (FitWarning only)
         rlow = [0, -2e-6, 0, -5e-7][i % 4]
         rx = [rmax, rlow] if (i % 2 and math.isfinite(rmax)) else [rlow, rmax]
+        if i == 3:
+            # an upper limit inside the indentation (negative, deeper than
+            # the shallowest scanned depth): still the requested number of
+            # samples
+            rx = [-4e-6, -6e-7]
         cfg = {"num_samples": ns, "range_x": rx, "seed": 200 + i}
         idnt = curves.make_indentation(cols)
         key = f"plateau:{ns}:{rx}:{200 + i}"
